@@ -1343,6 +1343,28 @@ fn summarise(sc: &Scenario, out: &RunOutput, st: &mut Stats) -> (u64, u64, bool)
     }
     for (i, spec) in sc.execs.iter().enumerate() {
         st.inc(&format!("executions/{}/{}", spec.engine.name(), spec.reach.name()), 1);
+        if guards_active(spec) {
+            for a in &spec.adds {
+                if let Some(g) = &a.guard {
+                    st.inc(if g.taken() { "guard_after_xadd_taken" } else { "guard_after_xadd_not_taken" }, 1);
+                }
+            }
+        }
+        if spec.loop_n > 1 {
+            st.inc(if spec.loop_dec_first { "loops_counter_decremented_before_the_xadd" } else { "loops_counter_decremented_after_the_xadd" }, 1);
+        }
+        if spec.in_callee {
+            st.inc("executions_with_xadd_in_local_function", 1);
+        }
+        if spec.helper_first {
+            st.inc("executions_with_helper_call_before_xadd", 1);
+        }
+        if spec.stack_check.is_some() {
+            st.inc("executions_with_stack_xadd_self_check", 1);
+        }
+        if matches!(out.outs[i].solo, Outcome::Signal(s) if s == sched::RUNAWAY) {
+            st.inc("runaway_executions_ended_by_budget", 1);
+        }
         if spec.adds.iter().any(|a| !aligned(a)) && spec.engine == Engine::Interp {
             st.inc("executions_with_misaligned_xadd", 1);
             if matches!(out.outs[i].solo, Outcome::Err(_)) {
